@@ -199,4 +199,21 @@ theorem idle_fixed_run (s : IdleState) (steps : List IdleStep) (h : ∀ st, s.st
   | nil => rfl
   | cons st rest ih => simp only [IdleState.run, List.foldl_cons, h st]; exact ih
 
+theorem inj_cfg_run (s : InjState) (steps : List InjStep) :
+    (s.run steps).watchOuter = s.watchOuter ∧ (s.run steps).watchInner = s.watchInner := by
+  induction steps generalizing s with
+  | nil => exact ⟨rfl, rfl⟩
+  | cons st rest ih =>
+    have h1 : (s.step st).watchOuter = s.watchOuter ∧ (s.step st).watchInner = s.watchInner := by
+      cases st <;> simp only [InjState.step] <;> (try split) <;> (try simp)
+    have h2 := ih (s.step st)
+    simp only [InjState.run, List.foldl_cons] at h2 ⊢
+    exact ⟨h2.1.trans h1.1, h2.2.trans h1.2⟩
+
+theorem inj_fixed_run (s : InjState) (steps : List InjStep) (h : ∀ st, s.step st = s) :
+    s.run steps = s := by
+  induction steps with
+  | nil => rfl
+  | cons st rest ih => simp only [InjState.run, List.foldl_cons, h st]; exact ih
+
 end Gluon.Conc
